@@ -2,4 +2,4 @@
 # usage: tools/vu.sh UNIT [extra verus args]   -- assemble and run verus, human-readable output
 U=$1; shift
 cd /verif && python3 tools/extract.py $U || exit 2
-( cd /verif/.cache/units && verus $U.rs --edition 2024 --multiple-errors 5 "$@" 2>&1 | grep -v "^$" )
+( cd /verif/.cache/units && verus $U.rs --edition 2024 --multiple-errors 5 "$@" 2>&1 | python3 /verif/tools/vfilter.py )
